@@ -154,7 +154,32 @@ func c03loop(p *Program, r *Report, rule string) {
 // c03fail: a rejected frame fails the connection (RFC 6455 §7.1.7): the header of the frame was consumed, its payload
 // was not, so nothing that follows on the transport may be parsed as frames.
 func c03fail(p *Program, r *Report, rule string) {
-	if fn := p.Func("Conn.writeError"); fn != nil {
+	if fn := p.FuncOpt("Conn.writeError"); fn == nil {
+		// writeError was inlined into its callers: each inlined site is writeClose(code, err.Error()) followed by closing the transport
+		for _, name := range []string{"Conn.readLoop", "Conn.handleControl", "Conn.reader", "msgReader.read", "limitReader.Read"} {
+			cf := p.FuncOpt(name)
+			if cf == nil {
+				continue
+			}
+			p.forAllPaths(r, rule+".close", cf, "close frame, then the transport (inlined writeError)", Opts{Unroll: 1}, "every failure close written by "+name+" (writeClose(code, err.Error())) is followed by closing the transport", func(pa *Path) (bool, string) {
+				for _, we := range pa.Calls("Conn.writeError") {
+					idx := eventIndex(pa, 0, func(e *Event) bool { return e.Instr == we.Instr })
+					ok := false
+					if idx >= 0 {
+						for _, e := range pa.Events[idx+1:] {
+							if isCall(e, "Conn.closeTransport", "Conn.close") {
+								ok = true
+							}
+						}
+					}
+					if !ok {
+						return false, "a failure close is not followed by closing the transport"
+					}
+				}
+				return true, ""
+			})
+		}
+	} else {
 		p.forAllPaths(r, rule+".close", fn, "close frame, then the transport", Opts{},
 			"writeError writes the close frame (writeClose(code, err.Error())) and then closes the transport on every path: after a failure close the next read cannot parse the rejected frame's payload as frames", func(pa *Path) (bool, string) {
 				wc := eventIndex(pa, 0, func(e *Event) bool { return isCall(e, "Conn.writeClose", "Conn.writeCloseCtx") })
